@@ -134,7 +134,7 @@ def check_analytic(rep, prog, m):
             T = off_translator()
             ent = T.tr(b['entries'])
             oke = ent.equals(at('c1*(beta1@1 - beta1@0) + c2*(beta2@1 - beta2@0)'))
-            okd = ast.unparse(b['data[%s]' % d]) in ('numpy.sum(entries)', 'entries.sum()') and ast.unparse(lp[0].iter) == 'range(0, n + 1)'
+            okd = ast.unparse(b['data[%s]' % d]) in ('numpy.sum(entries)', 'entries.sum()') and ast.unparse(lp[0].iter) in ('range(0, n + 1)', 'range(n + 1)')
             ok = okc2 and okb and oke and okd
             det = 'c2: %s, beta args: %s, entries: %s, sum: %s' % (okc2, okb, oke, okd)
         except (KeyError, AlgebraError) as e:
@@ -189,7 +189,7 @@ def check_analytic(rep, prog, m):
                 elif isinstance(s_, ast.AugAssign):
                     augs[ast.unparse(s_.target)] = (type(s_.op).__name__, s_.value)
             try:
-                okr = ast.unparse(lp[0].iter) == 'range(0, %s + 1)' % n_
+                okr = ast.unparse(lp[0].iter) in ('range(0, %s + 1)' % n_, 'range(%s + 1)' % n_)
                 ok1 = ast.unparse(b['term1']) == 'np.dot(c1_%s, dbeta1_%s[%s])' % (L, L, v) and ast.unparse(b['term2']) == 'np.dot(s_%s, dbeta2_%s[%s])' % (L, L, v)
                 ok2 = augs.get('term2', ('', None))[0] == 'Mult' and Translator().tr(augs['term2'][1]).equals(parse_expr('(%s + 1)/((%s + 1)*(%s + 2))' % (v, n_, n_)))
                 over = [k for k, val in b.items() if ast.unparse(val) == 'term1 + term2']
@@ -245,7 +245,7 @@ def check_direct(rep, prog, m):
                 if isinstance(p, ast.For):
                     lv = p.target.id
                     rng = ast.unparse(p.iter)
-            ok = nd is not None and lv is not None and binom_factor_ok(nd.value, ns[a], lv, G[a]) and rng == 'range(0, %s + 1)' % ns[a]
+            ok = nd is not None and lv is not None and binom_factor_ok(nd.value, ns[a], lv, G[a]) and rng in ('range(0, %s + 1)' % ns[a], 'range(%s + 1)' % ns[a])
             if nd is None and fname in pmfs:
                 # the factor through scipy.stats.binom.pmf(k, n, p): the same number for 0 <= p <= 1, but nan outside that interval, and
                 # the grids of this package reach a rounding error beyond 0 and 1 (the semi-analytic path clamps them, this one does not)
